@@ -7,6 +7,7 @@ import (
 	"net/netip"
 	"os"
 	"reflect"
+	"sync"
 	"time"
 
 	codec "github.com/uhppoted/uhppote-core/encoding/UTO311-L0x"
@@ -530,7 +531,8 @@ func c04(c *Ctx) {
 				c04Guard(c, "C04:argument:AddTask", fmt.Sprintf("AddTask(task type %d)", int(task.Task)), w, caseNo, func() { u.AddTask(serial, task) })
 			case 5:
 				okScript(rm.FindOp("SetListener"), serial)
-				aps := []netip.AddrPort{{}, netip.MustParseAddrPort("[::1]:1"), netip.MustParseAddrPort("[fe80::1%eth0]:60001"), netip.MustParseAddrPort("[::ffff:1.2.3.4]:5"), netip.AddrPortFrom(netip.Addr{}, 9), netip.MustParseAddrPort("0.0.0.0:0"), netip.MustParseAddrPort("1.2.3.4:0")}
+				aps := []netip.AddrPort{{}, netip.MustParseAddrPort("[::1]:1"), netip.MustParseAddrPort("[fe80::1%eth0]:60001"), netip.MustParseAddrPort("[::ffff:1.2.3.4]:5"), netip.AddrPortFrom(netip.Addr{}, 9), netip.MustParseAddrPort("0.0.0.0:0"), netip.MustParseAddrPort("1.2.3.4:0"),
+					netip.MustParseAddrPort("[::]:0"), netip.MustParseAddrPort("[::]:60001"), netip.MustParseAddrPort("[::ffff:0.0.0.0]:0"), netip.MustParseAddrPort("[::%lo]:0"), netip.AddrPortFrom(netip.IPv6Unspecified(), 0), netip.AddrPortFrom(netip.IPv6LinkLocalAllNodes(), 0), netip.MustParseAddrPort("[ff02::1]:60001")}
 				ap := aps[r.Pick(len(aps))]
 				c04Guard(c, "C04:argument:SetListener", fmt.Sprintf("SetListener(%v)", ap), w, caseNo, func() { u.SetListener(serial, ap, r.U8()) })
 			case 6:
@@ -618,6 +620,57 @@ func c04(c *Ctx) {
 				})
 			}
 		}
+	}
+	// ---------------------------------------------------------------- (e) several goroutines on one client with configured controllers
+	// - one of them keeps re-addressing a controller (SetAddress), the others call, discover and list: nothing may blow up (a runtime
+	// abort inside the library ends the worker process and is reported from its trace)
+	if c.MBatch < 2 {
+		serials := []uint32{405419896, 303986753, 201020304}
+		uc, dc := mkMemClient(ClientCfg{Broadcast: "192.168.1.255:60000", Devices: []DevCfg{
+			{ID: serials[0], Name: "a", Addr: "192.168.1.100:60000", Proto: "udp", NewDevice: true, Doors: []string{"d1", "d2", "d3", "d4"}},
+			{ID: serials[1], Name: "b", Addr: "192.168.1.101:60000", Proto: "tcp"}, {ID: serials[2], Name: "c", Addr: "0.0.0.0:60000", Proto: "udp"}}})
+		dc.Scribble = false
+		dc.Script = func(inv adapter.Invocation) ([][]byte, error) {
+			if len(inv.Request) < 8 || inv.Request[1] == 0x94 {
+				return nil, nil
+			}
+			reply := make([]byte, 64)
+			copy(reply, inv.Request[:8])
+			return [][]byte{reply}, nil
+		}
+		var wg sync.WaitGroup
+		rounds := c.N(3000, 30000)
+		for g := 0; g < 6; g++ {
+			wg.Add(1)
+			go func(g int) {
+				defer wg.Done()
+				for k := 0; k < rounds; k++ {
+					s := serials[(g+k)%3]
+					c04Guard(c, "C04:concurrent-use", "several goroutines using one client (SetAddress, calls, GetDevices, DeviceList at the same time)", func() map[string]any { return map[string]any{"goroutine": g} }, -9, func() {
+						switch g {
+						case 0, 1:
+							uc.SetAddress(s, net.IPv4(192, 168, 1, byte(100+k%50)), net.IPv4(255, 255, 255, 0), net.IPv4(192, 168, 1, 1))
+						case 2:
+							uc.GetTime(s)
+						case 3:
+							for _, dv := range uc.DeviceList() {
+								_ = dv.Address.String()
+							}
+							uc.ListenAddrList()
+						case 4:
+							uc.GetDevice(s)
+							uc.OpenDoor(s, uint8(1+k%4))
+						default:
+							uc.GetDevices()
+						}
+					})
+				}
+			}(g)
+		}
+		wg.Wait()
+		c.Res.Eval(1)
+		c.Res.DistinctKey("concurrent-use", "one-client")
+		c.Res.Count("concurrent-calls-on-one-configured-client", int64(6*rounds))
 	}
 	c.Res.Sample(map[string]any{"decode_inputs": N, "operation_replies": M})
 }
